@@ -267,3 +267,57 @@ func VerifC06_CalledOnDeclaringObject() {
 	vAssert("declaring/called-as", opt.CalledAs("verbose") == "v")
 	vReach("declaring")
 }
+
+// One-letter multibyte aliases that share their first byte (α, β; γ is not
+// declared): each alias addresses its own option only, and a letter that is not
+// declared touches nothing - in every mode, alone and inside a bundle.
+func VerifC06_MultibyteLetters() {
+	vNativeReset()
+	mode := vInt("mode", 0, 2)
+	shape := vInt("shape", 0, 5)
+	opt := New()
+	setMode(opt, mode)
+	opt.SetUnknownMode(Pass)
+	alpha := opt.Bool("alpha", false, opt.Alias("α"))
+	beta := opt.Bool("beta", false, opt.Alias("β"))
+	uml := opt.String("umlaut", "d", opt.Alias("ü"))
+	var args, want []string
+	wa, wb, wu := false, false, "d"
+	switch shape {
+	case 0:
+		args, wa = []string{"-α"}, true
+	case 1:
+		args, wb = []string{"-β"}, true
+	case 2:
+		args, want = []string{"-γ"}, []string{"-γ"}
+	case 3:
+		args, want = []string{"-ö", "v"}, []string{"-ö", "v"}
+	case 4:
+		vAssume(mode == 1)
+		args, wa, wb = []string{"-βα"}, true, true
+	case 5:
+		// ANY two-byte letter that is not declared
+		u := vString("u")
+		vAssume(len(u) == 2)
+		vAssume(u[0] >= 0xc2 && u[0] <= 0xdf)
+		vAssume(u[1] >= 0x80 && u[1] <= 0xbf)
+		vAssume(u != "α" && u != "β" && u != "ü")
+		args, want = []string{"-" + u}, []string{"-" + u}
+	}
+	vPhase("run")
+	remaining, err := opt.Parse(args)
+	vObserve("err", err)
+	vObserve("remaining", remaining)
+	vAssert("letters/no-error", err == nil)
+	vAssert("letters/remaining", eqStrs(remaining, want))
+	vAssert("letters/alpha", *alpha == wa)
+	vAssert("letters/beta", *beta == wb)
+	vAssert("letters/umlaut", *uml == wu)
+	vAssert("letters/alpha-called", opt.Called("alpha") == wa)
+	vAssert("letters/beta-called", opt.Called("beta") == wb)
+	vAssert("letters/umlaut-called", !opt.Called("umlaut"))
+	if wa {
+		vAssert("letters/called-as", opt.CalledAs("alpha") == "α")
+	}
+	vReach("parsed")
+}
